@@ -29,6 +29,31 @@ pub fn main(subjects: Vec<Box<dyn Subject>>) {
     let heartbeat = arg(&args, "--heartbeat");
     crate::subject::install_panic_hook();
     let ctx = Ctx { tier, seed, oracle: Oracle::new(), only_input, heartbeat, part, parts, sweep_slice_only: std::cell::Cell::new(false) };
+    if property == "C09" {
+        // stall watchdog: bounded-progress restatement of "terminates"
+        let out2 = format!("{out}.stall");
+        std::thread::spawn(move || {
+            use std::sync::atomic::Ordering;
+            let mut last = u64::MAX;
+            let mut same = 0u32;
+            loop {
+                std::thread::sleep(std::time::Duration::from_secs(1));
+                let cur = crate::monitors::c09::PROGRESS.load(Ordering::Relaxed);
+                if cur == last {
+                    same += 1;
+                } else {
+                    same = 0;
+                    last = cur;
+                }
+                if same >= 10 {
+                    let decl = crate::monitors::c09::CURRENT_DECL.lock().map(|g| g.clone()).unwrap_or_default();
+                    let input = crate::monitors::c09::CURRENT_INPUT.lock().map(|g| crate::monitors::c09::hex(&g)).unwrap_or_default();
+                    let _ = std::fs::write(&out2, format!("{decl} {input}\n"));
+                    std::process::exit(3);
+                }
+            }
+        });
+    }
     let mon = monitor_for(&property).unwrap_or_else(|| panic!("unknown property {property}"));
     let mut f = std::io::BufWriter::new(std::fs::File::create(&out).expect("create out"));
     // twin groups must land in the same part: partition by group key
